@@ -17,6 +17,27 @@ STRENGTHENED = {
     "c07-1": "C07 missed it at first (cancellation was only driven from inside the poll); cancellation between Next calls from the consumer side was added",
     "c07-2": "C07 missed it at first; the finished-iterator-after-other-runs (stale handle) check was added",
     "c01-2": "C01 missed it at first; bounded-exhaustive `?//` templates (all ordered pairs of 18 pattern shapes over three variables, three bodies, heterogeneous loops) were added",
+    "c01-3": "C01 missed it at first; a scope family was added: 70 query positions and 55 sibling-position templates x 8 probes (function, parameterised function, variable, destructured variable, label of the same name inside and outside)",
+    "c01-4": "C01 missed it at first; closure-resumption family added: 27 function bodies that keep using values bound before/between/after calls of a filter parameter x 8 multi-output arguments x 10 callers",
+    "c03-3": "C03 caught it with a single case at first; fractional, huge, non-finite and wrong-typed values for `$name` parameters of filter-taking builtins and multi-output filter arguments were added",
+    "c03-5": "same change as c11-1, filed under C03 by its author: C11 caught it at once (3200 cases), C03 only after 20-element arrays with tied keys were added to its universe",
+    "c05-3": "C05 missed it at first; programs over pointer-backed scalars (*big.Int, negative too) as input elements, variables and literals were added",
+    "c05-5": "C05 missed it at first; folds starting from a neutral element ({} / [] / \"\" / 0 / null) over inputs, variables and literals were added",
+    "c06-4": "C06 missed it at first; the shared input now has spare capacity behind every array (what a decoder or slice leaves)",
+    "c06-5": "C06 missed it at first; per-goroutine input variants (each compared with its own run alone) over programs whose per-Code state is keyed by run-time values (patterns, flags) were added",
+    "c07-5": "C07 missed it at first; an error-site sweep (75 kinds of run-time error x 24 surrounding states, Next called on after each error value) was added",
+    "c09-4": "C09 caught it with 2 cases at first; a head x suffix x separation family (37 term heads, 33 suffix spellings, glued or spaced) was added",
+    "c10-3": "C10 missed it at first (C05 caught it); operand integrity after every evaluation is now part of c10.arith",
+    "c10-4": "C10 and C11 missed it at first; exhaustive ordered pairs of 69 representation-boundary values x operators x all 9 representation combinations (C10) and word-edge integers held as *big.Int (C11) were added",
+    "c10-5": "C10 caught it with 2 cases at first; same representation-boundary product (now 145 cases)",
+    "c11-3": "C11: caught after the universe got slices sharing one backing array (added while handling c10-4)",
+    "c11-5": "C11: caught after null-valued members under different keys were added to the universe",
+    "c14-3": "C14 missed it at first; U+FFFD itself was added to the subject alphabet (exhaustive subjects up to length 4)",
+    "c16-5": "C16 missed it at first; the args kind now combines named files/values with every input mode flag (-R, --stream, -s, --yaml-input and pairs)",
+    "c17-3": "C17 missed it at first; unexpected-EOF faults now also end behind white space / comments (library Offset/Token checked; the command's display only when the end is not behind trivia)",
+    "c18-3": "C18 missed it at first; generated definitions now have arities up to 12 (numeric vs textual order of name/arity)",
+    "c19-5": "C19 caught it with a single case at first; the two ambient states now differ in the process' local time zone (time.Local replaced), with %z %s %Z formats",
+    "c20-5": "C20 missed it at first (the defect is in the command's input reader, not in the VM); a command-level monitor of the kernel's peak RSS for 4 MiB vs 48 MiB piped streams in 9 line disciplines was added",
     "c02-1": "C02 caught it with only 3 cases at first; nested deleting update bodies were added to the body pool (now 62 cases)",
     "c06-2": "C06 caught it with only 3 cases at first; flat and nested deleting updates were added to the concurrent workload (now 18 racing cases)",
     "c20-2": "C20 caught it with a single case at first; every generated tail-recursive definition is now also started from a call site with something pending (30 loop sites, 20 generator sites)",
